@@ -67,6 +67,17 @@ void checkOne(Ctx& ctx, const std::vector<int>& cfg)
 	auto w2 = prtc::writeArt(b);
 	ctx.transition();
 	if (w2 != w1) { bad("write-not-byte-stable", ""); return; }
+	{
+		std::string dir = ctx.scratch(), in = dir + "/in.prt", out = dir + "/out.prt";
+		mc::writeFile(in, bytes);
+		ArtFile af; std::vector<uint8_t> wf;
+		auto o3 = mc::guarded([&] { af = ArtFile::Read(in); af.Write(out); wf = mc::readFile(out); });
+		ctx.transition(2);
+		if (o3.cls != 'R') { bad("file-overloads-throw", o3.what); return; }
+		if (prtc::dump(af) != before) { bad("file-overload-read-differs-from-stream-read", ""); return; }
+		if (wf != w1) { bad("file-overload-write-differs-from-stream-write", ""); return; }
+		ctx.count("file-overloads/round-trips");
+	}
 	ctx.state(); ctx.trace();
 	ctx.outcome(mc::fnv(w1.data(), w1.size()));
 	for (auto& an : r.animations) for (auto& f : an.frames) { if (f.flag1 && f.flag2) ctx.count("frames/both-optional-flags"); else if (f.flag1 || f.flag2) ctx.count("frames/one-optional-flag"); else ctx.count("frames/no-optional-flag"); if (f.layers.size() == 127) ctx.count("frames/127-layers"); if (f.layers.empty()) ctx.count("frames/0-layers"); }
